@@ -134,6 +134,18 @@ def order_case(case, res):
                 if bool(got) != want:
                     res.violation(f"compare|{name}|Quantity", f"({n1!r}, {f1!r}) {name} {x!r} cycle = {bool(got)}, expected {want}",
                                   case, sub)
+                # the ufunc called directly with the non-Phase operand FIRST (operand order must be kept)
+                for oname, other in (("Quantity", qq), ("float", float(x)), ("0-d array", np.array(x))):
+                    try:
+                        got2 = uf(other, p)
+                    except Exception as e:
+                        res.violation(f"compare|{name}|ufunc({oname}, phase) raised", f"{type(e).__name__}: {e}", case, sub)
+                        continue
+                    res.transitions += 1
+                    want2 = op(F(x), pv)
+                    if bool(got2) != want2:
+                        res.violation(f"compare|{name}|ufunc({oname}, phase)", f"np.{uf.__name__}({x!r}, ({n1!r}, {f1!r})) = {bool(got2)}, "
+                                      f"expected {want2}", case, sub)
     # equality against a non-angle: False / True, never an exception
     p = mk(n1, 0.3)
     res.transitions += 2
@@ -254,6 +266,31 @@ def reduce_case(case, res):
     res.sample({"first": list(first), "max_length": k}, 1)
 
 
+def inplace_history(res, case, vals, sub):
+    """Use the array (sort / min / value), update it in place, then sort again: no stale derived state."""
+    P = Phase(np.array([v[0] for v in vals]), np.array([v[1] for v in vals]))
+    _ = (P.sort(), P.argsort(), P.min(), P.max(), P.value, P.cycle)
+    d = Phase(np.array([3.0, -2.0, 0.0, 5.0][:len(vals)]), np.array([0.25, -0.125, 0.4, 0.0][:len(vals)]))
+    for step, fn in (("+=", lambda: P.__iadd__(d)), ("-=", lambda: P.__isub__(d * 2)), ("out=", lambda: np.add(P, d, out=P))):
+        try:
+            fn()
+        except Exception as e:
+            res.violation("history|in-place raised", f"{step}: {type(e).__name__}: {e}", case, sub)
+            return
+        res.transitions += 1
+        E = ex(P)
+        srt = ex(P.sort())
+        idx = [int(i) for i in np.asarray(P.argsort())]
+        if srt != sorted(E) or [E[i] for i in idx] != sorted(E):
+            res.violation("history|sort after in-place update", f"after '{step}' on an array that had been sorted before, sort()/argsort() "
+                          f"order by stale values: {[float(x) for x in srt]} vs {[float(x) for x in sorted(E)]}", case, dict(sub, step=step))
+            return
+        if ex(P.min())[0] != min(E) or ex(P.max())[0] != max(E) or int(P.argmax()) not in [i for i, v in enumerate(E) if v == max(E)]:
+            res.violation("history|min/max after in-place update", f"after '{step}'", case, dict(sub, step=step))
+            return
+    res.hits["use, update in place, sort again"] += 1
+
+
 def reduce4_case(case, res):
     """length-4 arrays and their 2x2 reshapes over the six hardest values (all 6^4), quick and thorough."""
     hard = [SUBSET[i] for i in (1, 2, 3, 4, 8, 9)]
@@ -262,6 +299,8 @@ def reduce4_case(case, res):
         res.state(("red4", combo))
         check_reductions(res, case, vals, (4,), {"values": [list(v) for v in vals]})
         check_reductions(res, case, vals, (2, 2), {"values": [list(v) for v in vals]})
+        if combo[0] <= 1:
+            inplace_history(res, case, vals, {"values": [list(v) for v in vals]})
     res.hits["2-D reshapes"] += 1
     res.sample({"hard values": [list(v) for v in hard], "arrays": 6 ** 4}, 1)
 
@@ -415,7 +454,7 @@ def main(argv=None):
         PID, gen_cases=gen_cases, check_case=check_case, describe=describe,
         required_hits=["near-tie below double resolution", "exact tie", "array with exact ties", "array with sub-ulp near-ties",
                        "2-D reshapes", "zero or missing integer part", "zero or missing fractional part", "D exponent",
-                       "round trip", "precision < 2 with small fraction"],
+                       "round trip", "precision < 2 with small fraction", "use, update in place, sort again"],
         assumptions=["for exact ties any index/permutation that realises the exact ordering is accepted",
                      "the imaginary flag of an exactly zero value is unconstrained", "format(p, '.0f') (no decimals) falls to the "
                      "Quantity formatter and is not constrained"],
